@@ -424,6 +424,28 @@ func genC07(g *genCtx) {
 	pf := plainProfile
 	pf.TextPct = 35
 	pool := docPool(r, pf, 5, g.scale(2, 3), g.scale(60, 200), 16)
+	// numbers that are neighbours among the doubles (one unit in the last place apart), as literals, as results of
+	// arithmetic and as node values: = and != are exact
+	near := [][2]string{{"0.1 + 0.2", "0.3"}, {"0.30000000000000004", "0.3"}, {"1.0000000000000002", "1"}, {"0.1 * 3", "0.3"}, {"1 div 3 * 3", "1"}, {"4.35 * 100", "435"},
+		{"1.1 + 2.2", "3.3"}, {"0.7 + 0.1", "0.8"}, {"9007199254740992", "9007199254740993"}, {"179769313486231570000000000000000000000000000000000000000000000000000000000000000000000000000000000000000000000000000000000000000000000000000000000000000000000000000000000000000000000000000000000000000000000000000000000000000000000000000000000000000000000000000000000000000000000000000000000000000000000000000000000000000000000 * 10", "1 div 0"},
+		{"0.000000000000000000000000000000000000000000000000000000000000000000000000000000000000000000000000000000000000000000000000000000000000000000000000000000000000000000000000000000000000000000000000000000000000000000000000000000000000000000000000000000000000000000000000000000000000000000000000000000000000000000000000000000000005", "0"}}
+	dn := Doc{{Depth: 0, Kind: 'r'}, {Depth: 1, Kind: 'e', Name: "r"}, {Depth: 2, Kind: 'e', Name: "v", Attrs: []Attr{{Name: "k", Val: "0.30000000000000004"}}}, {Depth: 3, Kind: 't', Data: "0.30000000000000004"},
+		{Depth: 2, Kind: 'e', Name: "w", Attrs: []Attr{{Name: "k", Val: "1.0000000000000002"}}}, {Depth: 3, Kind: 't', Data: "0.3"}}
+	for _, pr := range near {
+		for _, op := range cmpOps {
+			g.add(&Case{Kind: "eval", Doc: dn, Ctx: Ref{0, -1}, Expr: pr[0] + " " + op + " " + pr[1]})
+			g.add(&Case{Kind: "eval", Doc: dn, Ctx: Ref{0, -1}, Expr: pr[1] + " " + op + " " + pr[0]})
+		}
+	}
+	for _, op := range cmpOps {
+		for _, e := range []string{"/r/v " + op + " 0.3", "0.3 " + op + " /r/v", "/r/v " + op + " /r/w", "/r/*/@k " + op + " 1", "//v[. " + op + " 0.3]", "not(/r/w " + op + " 0.30000000000000004)", "/r/v/@k " + op + " 0.1 + 0.2"} {
+			kind := "eval"
+			if strings.HasPrefix(e, "//v") {
+				kind = "sel"
+			}
+			g.add(&Case{Kind: kind, Doc: dn, Ctx: Ref{0, -1}, Expr: e})
+		}
+	}
 	for i := 0; i < g.scale(30000, 300000); i++ {
 		d := pool[r.intn(len(pool))]
 		if r.chance(1, 5) {
@@ -434,12 +456,39 @@ func genC07(g *genCtx) {
 	}
 }
 
+// genDecimalLit: a Number literal with random integer and fraction digits (every one of them has to be read as the
+// nearest double of the whole numeral, not of its parts)
+func genDecimalLit(r *rng) string {
+	digits := func(n int, first bool) string {
+		b := make([]byte, n)
+		for i := range b {
+			b[i] = byte('0' + r.intn(10))
+			if i == 0 && first && n > 1 && b[i] == '0' {
+				b[i] = '1'
+			}
+		}
+		return string(b)
+	}
+	switch r.intn(8) {
+	case 0:
+		return "." + digits(1+r.intn(4), false)
+	case 1:
+		return digits(1+r.intn(17), true) + "." + digits(1+r.intn(17), false) // long numerals
+	case 2:
+		return digits(1+r.intn(20), true)
+	default:
+		return digits(1+r.intn(3), true) + "." + digits(1+r.intn(4), false)
+	}
+}
+
 // genNumExpr: C08 fragment
 func genNumExpr(r *rng, depth int) string {
 	if depth <= 0 {
 		switch r.intn(8) {
-		case 0, 1, 2:
+		case 0, 1:
 			return r.pick([]string{"0", "1", "2", "3", "7", "10", "2.5", ".5", "1.", "100", "12345", "0.125", "999999", "1000000", "0.1", "3.0"})
+		case 2:
+			return genDecimalLit(r)
 		case 3:
 			return "count(" + genFlatPath(r) + ")"
 		case 4:
@@ -602,6 +651,17 @@ func genC09(g *genCtx) {
 	for i := 0; i < g.scale(30000, 300000); i++ {
 		d := pool[r.intn(len(pool))]
 		g.add(&Case{Kind: "eval", Doc: d, Ctx: pickNodeCtx(r, d), Expr: genStrExpr(r, r.intn(4))})
+	}
+	// a string function that is abandoned half-way (a later argument raises the package's argument-type error) must
+	// leave nothing behind for the next evaluation (pooled buffers, memoised arguments)
+	preludes := []string{"concat('id-', substring('12345', 'x'))", "concat('zz', 'y', starts-with(1, 'a'))", "normalize-space(concat(' q ', substring('x', 'y')))",
+		"concat('p', replace('a', '(', 'b'))", "concat('m', matches('a', string(//zzz | '(')))", "string-join(//*, substring('a', 'b'))", "concat('t', translate('a', 'b', substring('c', 'd')))",
+		"concat('long-prefix-', concat('inner-', substring('12345', 'x')))", "lower-case(concat('AB', substring('x', 'y')))"}
+	follow := []string{"concat('a', 'b')", "normalize-space('  a   b ')", "concat('', '')", "string-join(//a, ',')", "concat(string(//a), '|')", "translate('abc', 'a', 'x')", "replace('abc', 'b', 'x')",
+		"lower-case('AB')", "substring-before('a-b', '-')", "concat('x', normalize-space(' y '))", "string(concat('1', '2') = '12')", "string-length(concat('ab', 'c'))"}
+	for i := 0; i < g.scale(600, 6000); i++ {
+		d := pool[r.intn(len(pool))]
+		g.add(&Case{Kind: "eval", Doc: d, Ctx: pickNodeCtx(r, d), Expr: r.pick(follow), Extra: "after:" + hx(r.pick(preludes))})
 	}
 }
 
@@ -924,8 +984,14 @@ func genC11(g *genCtx) {
 		case 0:
 			e = a + " | " + b + " | " + genPathPF(r, 1, tests)
 		case 1:
-			// sequence form p/(x, y)
-			e = r.pick([]string{"//*", "/*", ".", "//a", "*"}) + "/(" + r.pick(tests) + ", " + r.pick(tests) + ")"
+			// sequence form p/(x, y): members are steps of any axis, the input any path (incl. explicit descendant steps)
+			mem := func() string {
+				if r.chance(1, 2) {
+					return r.pick(tests)
+				}
+				return r.pick([]string{"descendant::" + r.pick(tests), "descendant-or-self::" + r.pick(tests), "@*", "@k", ".", "..", "following-sibling::" + r.pick(tests), "ancestor::*", "self::a", "parent::*/" + r.pick(tests)})
+			}
+			e = r.pick([]string{"//*", "/*", ".", "//a", "*", "descendant::a", "/descendant::*", "descendant-or-self::*", "//a/descendant::b", "/*/descendant::a", "a | b"}) + "/(" + mem() + ", " + mem() + r.pick([]string{"", "", ", " + mem()}) + ")"
 		case 2:
 			e = "//@* | //text() | " + a
 		default:
@@ -1121,11 +1187,23 @@ func genC13(g *genCtx) {
 			p := r.pick([]string{genPathPF(r, 1+r.intn(2), nodeTests), genFilteredPath(r, 0),
 				r.pick([]string{"a", "b", "*", "node()"}) + "[" + r.pick([]string{"a", "b", "@k", "@zz", "*", "text()", "not(*)"}) + "]",
 				r.pick([]string{"a", "b", "*"}) + "[" + genBoolPred(r, 0) + "]"})
+			if r.chance(1, 5) {
+				// paths whose last step carries a positional predicate (C03's forms): `[true()]` appended to the step
+				// itself or to the parenthesised path
+				p = genPositional(r)
+				if !strings.HasPrefix(p, "(") && !strings.HasPrefix(p, "/") {
+					g.add(&Case{Kind: "meta", Doc: d, Ctx: n, Expr: p, Extra: "set;" + n.String() + ";" + hx(p+"[true()]")})
+				}
+			}
 			if strings.HasPrefix(p, "(") {
 				continue
 			}
 			switch r.intn(4) {
 			case 0:
+				if r.chance(1, 2) {
+					g.add(&Case{Kind: "meta", Doc: d, Ctx: n, Expr: p, Extra: "set;" + n.String() + ";" + hx(p+"[true()]")})
+					continue
+				}
 				g.add(&Case{Kind: "meta", Doc: d, Ctx: n, Expr: p, Extra: "set;" + n.String() + ";" + hx("("+p+")[true()]")})
 			case 1:
 				g.add(&Case{Kind: "meta", Doc: d, Ctx: n, Expr: p, Extra: "seq;" + n.String() + ";" + hx("("+p+")")})
